@@ -319,6 +319,7 @@ def lru_scenario(maxsize, plans, sus, fail_at, op):
     w.results = []          # (task, key, outcome)
     w.calls_started = 0
     w.cleared = False
+    w.probing = False       # the usability probe after the run is not subject to the injected failure
 
     @a.lru_cache(maxsize=maxsize)
     async def fn(key):
@@ -326,7 +327,7 @@ def lru_scenario(maxsize, plans, sus, fail_at, op):
         w.invocations.append(key)
         for _ in range(sus):
             await Suspend()
-        if fail_at == n:
+        if fail_at == n and not w.probing:
             raise Boom(key)
         return ("value", key, n)
     w.fn = fn
@@ -378,6 +379,7 @@ def lru_scenario(maxsize, plans, sus, fail_at, op):
                 for key in sorted({k for p in plans for k in p}):
                     out.append((key, await fn(key)))
                 return out
+            w.probing = True
             co = again()
             try:
                 while True:
